@@ -473,6 +473,44 @@ reg("C25", hist("All timestamp sequences (length 5 / 6) over {1..5} incl. out-of
 
 
 # ---------------------------------------------------------------------------------------------------------
+# E4 loomcheck
+# ---------------------------------------------------------------------------------------------------------
+LOOM_NOTE = ("Trusted: loom 0.7.2 (DPOR, C11 memory model for its own primitives), the critical_section implementation on loom "
+             "primitives, the virtual std (vstd: one global loom mutex, per-thread condvars, virtual Instant advanced by a "
+             "demand-driven clock thread) and, for C42, the build-time import rewriting of the two std_runtime source files "
+             "(only `use` paths and tracing attributes; anything unanticipated is a build failure = machinery exit). "
+             "`alloc::sync::Arc`/`RefCell` accesses are not instrumented by loom (they are only touched inside critical sections).")
+LOOM_ASSUME = ["preemption-bounded (quick 3 / 2, thorough 4 / 3), not unbounded", "at most 3 producers, 2 concurrent sleeps, 5 threads (loom limit)",
+               "virtual time: spontaneous clock ticks limited to the tick budget; no OS jitter"]
+
+reg("C34", Spec(
+    "loomcheck", "model_checking",
+    "The unmodified oneshot.rs, mpsc.rs and notification.rs are compiled (by #[path]) against a loom-backed critical_section and "
+    "explored by loom with preemption bound 3 (thorough 4) in 15 harnesses: oneshot {send || recv; drop-sender || recv; send-then-"
+    "drop || recv re-polled with a new waker; mail request/reply}, mpsc {2 and 3 producers || consumer (FIFO per producer, exactly "
+    "once); clone/drop while the consumer waits; all senders dropped}, notification {notify || wait; clone || drop || wait; last "
+    "sender dropped; notify-then-drop}. Every violated oracle or loom deadlock (= lost wake-up) is a finding.",
+    LOOM_NOTE, "stateless model checking of thread interleavings with loom (DPOR, preemption-bounded) on the unmodified sources",
+    "DESIGN.md §4 C34, /verif/loomcheck/NOTES.md",
+    "all interleavings with ≤ bound preemptions per harness; evaluations = loom iterations; distinct = distinct observed outcomes per harness",
+    LOOM_ASSUME, floor=(10000, 8), timeout=(300, 7200), mem_gb=8))
+
+reg("C42", Spec(
+    "loomcheck", "model_checking",
+    "timer.rs and executor.rs of the std runtime (imports rewritten at build time to a loom-backed virtual std with a virtual clock) are "
+    "explored by loom with preemption bound 2 (thorough 3) and one (two) spontaneous clock tick(s) in 14 harnesses: one sleep; two "
+    "sleeps with equal / inverted deadlines; sleep dropped before / after its first poll (counting waker); sleep re-polled with a "
+    "new waker; block_timeout around a oneshot sent before / at / after the timeout and around a Sleep; block_on of a future "
+    "completed by another thread; executor spawn/join; executor task that sleeps; sleep(Duration::MAX). Oracles: a sleep "
+    "resolves only when virtual now ≥ deadline and does resolve; a dropped sleep is not woken after its cancel was processed; "
+    "block_timeout returns Timeout only if the future was pending when the clock reached start+duration; block_on returns the output.",
+    LOOM_NOTE, "stateless model checking of thread interleavings with loom (DPOR, preemption-bounded) on the import-rewritten sources",
+    "DESIGN.md §4 C42, /verif/loomcheck/NOTES.md",
+    "all interleavings with ≤ bound preemptions and ≤ tick budget per harness; evaluations = loom iterations; distinct = distinct observed outcomes",
+    LOOM_ASSUME, floor=(10000, 8), timeout=(300, 7200), mem_gb=8))
+
+
+# ---------------------------------------------------------------------------------------------------------
 # MANIFEST
 # ---------------------------------------------------------------------------------------------------------
 def gen_manifest():
